@@ -344,6 +344,7 @@ def run(chk: Check) -> None:
         r5.violation("interface_hash = digest(data_bytes ...) and the same data_bytes are written", wc.loc(), f"interface_hash = {ih}")
 
     run_dep_hash(chk, ix)
+    run_follow_skip(chk, ix)
 
     # ---------------- R02.6
     r6 = chk.rule("R02.6", "TypeIndirectionVisitor reaches every type component (matrix row) and indirect dependencies are patched after type checking", floor=25)
@@ -428,3 +429,40 @@ def run_dep_hash(chk: Check, ix) -> None:
             r8.ok(f"{nm} path writes the name of every selected dependency", f.loc())
         else:
             r8.violation(f"{nm} path writes the name of every selected dependency", f.loc(), "a selected dependency's name is not (unconditionally) part of the hashed bytes")
+
+
+def run_follow_skip(chk: Check, ix) -> None:
+    """R02.9: a raw `follow_imports in (skip, error)` test honours the exceptions of the effective setting."""
+    r9 = chk.rule("R02.9", "wherever build.py decides from the raw option that a module is not followed (follow_imports skip/error), it carries the stub exception that find_module_and_diagnose applies when it computes the effective setting (stubs are followed unless follow_imports_for_stubs)", floor=1)
+    fmd = ix.func("mypy.build.find_module_and_diagnose")
+    norm_ifs = [n for n in ast.walk(fmd.node) if isinstance(n, ast.If) and any(isinstance(a, ast.Assign) and norm(a) == "follow_imports = 'normal'" for a in n.body)]
+    if len(norm_ifs) != 1:
+        raise AnalysisError("find_module_and_diagnose: the override to follow_imports = 'normal' was not found")
+    ov = norm(norm_ifs[0].test)
+    if ".endswith('.pyi')" not in ov or "follow_imports_for_stubs" not in ov:
+        r9.violation("find_module_and_diagnose: stubs are followed unless follow_imports_for_stubs", fmd.loc(norm_ifs[0]), f"the effective-setting override no longer has the stub exception: `{ov[:120]}`")
+        return
+    n_sites = 0
+    m = ix.module("mypy.build")
+    par = m.parents()
+    for q, f in sorted(ix.functions.items()):
+        if f.module is not m or f.parent is not None or f is fmd:
+            continue
+        for c in ast.walk(f.node):
+            if not (isinstance(c, ast.Compare) and isinstance(c.left, ast.Attribute) and c.left.attr == "follow_imports" and len(c.ops) == 1):
+                continue
+            vals = {x.value for x in ast.walk(c.comparators[0]) if isinstance(x, ast.Constant)}
+            if not (vals & {"skip", "error"}):
+                continue
+            n_sites += 1
+            top = c
+            while isinstance(par.get(top), (ast.BoolOp, ast.UnaryOp)):
+                top = par.get(top)
+            t = norm(top)
+            key = f"{q}: `{norm(c)}` carries the stub exception"
+            if ".endswith('.pyi')" in t and "follow_imports_for_stubs" in t:
+                r9.ok(key, f.loc(c))
+            else:
+                r9.violation(key, f.loc(c), "this test treats a module as not followed from the raw option alone; a stub (.pyi) is followed even under follow_imports=skip/error (unless follow_imports_for_stubs), so e.g. a newly appeared stub package is ignored here while the rest of the build follows it: the importer is not re-parsed and the cache keeps the old dependency list")
+    if n_sites < 1:
+        raise AnalysisError("no raw follow_imports skip/error test found in build.py (expected exist_added_packages)")
